@@ -2317,6 +2317,43 @@ class SequenceAndSetBase(base.ConstructedAsn1Type):
     def components(self):
         return self._componentValues
 
+    def __eq__(self, other):
+        if self is other:
+            return True
+
+        mine = self._componentValues
+
+        if isinstance(other, SequenceAndSetBase):
+            other = other._componentValues
+
+        if (mine is noValue or other is noValue or
+                not isinstance(other, (list, tuple))):
+            return mine == other
+
+        if len(mine) != len(other):
+            return False
+
+        # an unset component differs from any set one
+        for myComponent, otherComponent in zip(mine, other):
+            myUnset = (myComponent is noValue or
+                       isinstance(myComponent, base.Asn1Item) and
+                       not myComponent.isValue)
+            otherUnset = (otherComponent is noValue or
+                          isinstance(otherComponent, base.Asn1Item) and
+                          not otherComponent.isValue)
+
+            if myUnset or otherUnset:
+                if myUnset != otherUnset:
+                    return False
+
+            elif myComponent != otherComponent:
+                return False
+
+        return True
+
+    def __ne__(self, other):
+        return not self == other
+
     def _cloneComponentValues(self, myClone, cloneValueFlag):
         if self._componentValues is noValue:
             return
